@@ -50,6 +50,32 @@ impl VerifClock {
     }
 }
 
+impl Clone for VerifClock {
+    fn clone(&self) -> Self {
+        Self {
+            mock: Arc::clone(&self.mock),
+            base: self.base,
+        }
+    }
+}
+
+thread_local! {
+    static CLOCK_READ_HOOK: std::cell::Cell<Option<fn()>> = const { std::cell::Cell::new(None) };
+}
+
+/// Installs (or removes) a callback of the current thread that the mock clock calls right
+/// after it has taken a reading and before it returns it: the point between "read the clock"
+/// and whatever the caller does with the reading.
+pub fn set_clock_read_hook(f: Option<fn()>) {
+    CLOCK_READ_HOOK.with(|h| h.set(f));
+}
+
+pub(crate) fn after_clock_read() {
+    if let Some(f) = CLOCK_READ_HOOK.with(|h| h.get()) {
+        f()
+    }
+}
+
 #[derive(Clone, Debug)]
 pub struct SketchSnap {
     pub enabled: bool,
